@@ -92,6 +92,20 @@ func (s *Server) VerifTick(kind string, dt int64) {
 	}
 }
 
+// VerifAgeRetained makes the retained message of a topic older by the given number of seconds (creation and expiry time).
+func (s *Server) VerifAgeRetained(topic string, by int64) bool {
+	pk, ok := s.Topics.Retained.Get(topic)
+	if !ok {
+		return false
+	}
+	pk.Created -= by
+	if pk.Expiry > 0 {
+		pk.Expiry -= by
+	}
+	s.Topics.Retained.Add(topic, pk)
+	return true
+}
+
 // VerifDelayedWills returns the pending delayed will messages keyed by client id.
 func (s *Server) VerifDelayedWills() map[string]packets.Packet { return s.loop.willDelayed.GetAll() }
 
